@@ -287,7 +287,7 @@ Inductive cause :=
 | CPostStartFail (* post_start failed *).
 
 Definition guard_cleanup (ev sup : bool) : list instr :=
-  [ISet Stopping; ITerminate] ++ (if ev then [INotifySup] else [])
+  [ISet Stopping; ITerminate] ++ (if ev && sup then [INotifySup] else [])
   ++ (if sup then [IUnlink] else []) ++ [ISet Stopped].
 
 Definition exit_prog (c : cause) (sup : bool) : list instr :=
@@ -325,7 +325,9 @@ Definition fully_stopped (want_ps want_sup : bool) (x : snap) : bool :=
   && negb (sn_ps_active x) && implb want_ps (sn_ps_done x)
   && sn_children x && implb want_sup (sn_sup x).
 
-Inductive outcome := ORet | OTimeout | OJoin | OPending.
+(* OErr: a *_and_wait call whose send part failed (Err(Messaging)): it never waited and the
+   property makes no claim about it; the model never produces it *)
+Inductive outcome := ORet | OTimeout | OJoin | OPending | OErr.
 
 Record obs := mkObs { o_w : nat; o_out : outcome; o_snap : snap }.
 
@@ -377,7 +379,7 @@ Fixpoint nondecreasing (prev : N) (l : list obs) : bool :=
 Definition obs_ok (want_ps want_sup complete : bool) (o : obs) : bool :=
   match o_out o with
   | ORet | OJoin => fully_stopped want_ps want_sup (o_snap o)
-  | OTimeout => true
+  | OTimeout | OErr => true
   | OPending => negb complete
   end.
 
@@ -421,9 +423,37 @@ Fixpoint sched_go (started : list nat) (ops : list op) : list label :=
 
 Definition sched (ops : list op) : list label := sched_go [] ops.
 
+(* the status the driver reads after each operation (each operation is followed by a
+   quiescence window in the harness; the generators put OpSettle there) *)
+Fixpoint statuses_go (started : list nat) (ops : list op) (s : st) : list stat :=
+  match ops with
+  | [] => []
+  | o :: r =>
+      let s' := run (sched_go started [o]) s in
+      let started' := match o with OpStart w => started ++ [w] | _ => started end in
+      match o with
+      | OpSettle => status s' :: statuses_go started' r s'
+      | _ => statuses_go started' r s'
+      end
+  end.
+
+Fixpoint mono_stats (prev : N) (l : list stat) : bool :=
+  match l with
+  | [] => true
+  | x :: t => (prev <=? rank x) && mono_stats (rank x) t
+  end.
+
 (* a scenario of the E1 engine *)
 Definition scenario_init (s0 : stat) (ws : list wpc) (c : cause) (sup : bool) : st :=
   mk_init s0 ws [exit_prog c sup].
 
 Definition run_scenario (s0 : stat) (ws : list wpc) (c : cause) (sup : bool) (ops : list op) : list obs :=
   observe (sched ops) (scenario_init s0 ws c sup).
+
+Definition scenario_statuses (s0 : stat) (ws : list wpc) (c : cause) (sup : bool) (ops : list op) : list stat :=
+  statuses_go [] ops (scenario_init s0 ws c sup).
+
+(* was the schedule maximal: the actor task has finished and the status is Stopped *)
+Definition scenario_complete (s0 : stat) (ws : list wpc) (c : cause) (sup : bool) (ops : list op) : bool :=
+  let s := run (sched ops) (scenario_init s0 ws c sup) in
+  threads_done s && stat_eqb (status s) Stopped.
